@@ -202,11 +202,37 @@ fn verif_rpki_cases() {
 // Property C12, "the validation state ... shown by the API": TableManager::collect_paths
 // annotates every path with RpkiTable::validate.  case = [vrps, routes]
 //   vrps   = [[net, maxlen, asn], ...]      installed with rpki_insert (one cache)
-//   routes = [[net, local_asn, [[code, [bytes]], ...]], ...]   distinct prefixes, each inserted with
-//            insert_route from its own source (session local AS = local_asn)
-// observation = one entry per route, in route order:
-//   [] when the API lists no such destination, else [v] with
+//   routes = [[net, local_asn, [[code, [bytes]], ...], peer, path_id], ...]
+//            one PATH each, inserted in this order with insert_route; several paths may share a
+//            prefix.  peer 0..249 = a session 10.0.0.<peer+1> whose local AS is local_asn (the
+//            generator keeps it constant per peer); peer 255 = the local source (Source::local(),
+//            local AS 0).  The last two fields may be absent: peer = position, path_id = 0.
+// observation = one entry per route, in route order: [global, adj_in]
+//   global = [] when TableQuery::Global lists no such path, else [v]
+//   adj_in = the same through TableQuery::AdjIn(peer address) ([] for the local source)
 //   v = [] (no annotation) | [[state, reason, n_matched, n_unmatched_asn, n_unmatched_length]]
+fn api_annotation(p: &table::PathEntry) -> Val {
+    Val::opt(p.validation.as_ref().map(|r| {
+        let st = match r.state {
+            table::RpkiValidationState::NotFound => 0u8,
+            table::RpkiValidationState::Valid => 1,
+            table::RpkiValidationState::Invalid => 2,
+        };
+        let rs = match r.reason {
+            table::RpkiValidationReason::None => 0u8,
+            table::RpkiValidationReason::Asn => 1,
+            table::RpkiValidationReason::Length => 2,
+        };
+        Val::L(vec![
+            Val::n(st),
+            Val::n(rs),
+            Val::us(r.matched.len()),
+            Val::us(r.unmatched_asn.len()),
+            Val::us(r.unmatched_length.len()),
+        ])
+    }))
+}
+
 fn run_api_case(case: &Val) -> Val {
     let tables: TableHandle = Arc::new(crate::table_manager::TableManager::new(2));
     let cache = Arc::new(IpAddr::V4(Ipv4Addr::new(192, 0, 2, 1)));
@@ -219,7 +245,8 @@ fn run_api_case(case: &Val) -> Val {
         ));
     }
     tables.rpki_insert(v);
-    let mut nets = Vec::new();
+    let mut sources: std::collections::HashMap<usize, Arc<table::Source>> = std::collections::HashMap::new();
+    let mut paths: Vec<(packet::Family, packet::Nlri, Arc<table::Source>, u32, bool)> = Vec::new();
     for (i, r) in case.at(1).list().iter().enumerate() {
         let n = r.at(0);
         let (family, nlri, nh) = match hx_addr(n.at(0).int(), &n.at(1).bytes()) {
@@ -234,14 +261,27 @@ fn run_api_case(case: &Val) -> Val {
                 packet::bgp::Nexthop::V6(Ipv6Addr::new(0x2001, 0xdb8, 0, 0, 0, 0, 0, 9)),
             ),
         };
-        let source = Arc::new(table::Source::new(
-            IpAddr::V4(Ipv4Addr::new(10, 0, (i / 250) as u8, (i % 250) as u8 + 1)),
-            IpAddr::V4(Ipv4Addr::new(10, 0, 255, 254)),
-            64999,
-            r.at(1).u32(),
-            Ipv4Addr::new(1, 1, 1, 1),
-            table::PeerRole::Ebgp,
-        ));
+        let peer = if r.list().len() > 3 { r.at(3).usize() } else { i % 250 };
+        let path_id = if r.list().len() > 4 { r.at(4).u32() } else { 0 };
+        let is_local = peer == 255;
+        let local_asn = r.at(1).u32();
+        let source = if is_local {
+            table::Source::local()
+        } else {
+            sources
+                .entry(peer)
+                .or_insert_with(|| {
+                    Arc::new(table::Source::new(
+                        IpAddr::V4(Ipv4Addr::new(10, 0, 0, peer as u8 + 1)),
+                        IpAddr::V4(Ipv4Addr::new(10, 0, 255, 254)),
+                        64000 + peer as u32,
+                        local_asn,
+                        Ipv4Addr::new(1, 1, 1, peer as u8 + 1),
+                        table::PeerRole::Ebgp,
+                    ))
+                })
+                .clone()
+        };
         let mut attrs = Vec::new();
         for a in r.at(2).list() {
             let code = a.at(0).u8();
@@ -251,41 +291,41 @@ fn run_api_case(case: &Val) -> Val {
                 attrs.push(packet::Attribute::new_with_value(code, 0).expect("value attribute"));
             }
         }
-        tables.insert_route(source, family, packet::PathNlri::new(nlri.clone()), Some(nh), Arc::new(attrs), None, 0);
-        nets.push((family, nlri));
+        tables.insert_route(
+            source.clone(),
+            family,
+            packet::PathNlri { nlri: nlri.clone(), path_id },
+            Some(nh),
+            Arc::new(attrs),
+            None,
+            0,
+        );
+        paths.push((family, nlri, source, path_id, is_local));
     }
-    let mut all = Vec::new();
+    let find = |all: &Vec<table::DestinationEntry>, nlri: &packet::Nlri, src: &Arc<table::Source>, pid: u32| -> Val {
+        match all
+            .iter()
+            .find(|d| &d.net == nlri)
+            .and_then(|d| d.paths.iter().find(|p| p.source.remote_addr == src.remote_addr && Arc::ptr_eq(&p.source, src) && p.remote_path_id == pid))
+        {
+            None => Val::L(vec![]),
+            Some(p) => Val::L(vec![api_annotation(p)]),
+        }
+    };
+    let mut global = Vec::new();
     for fam in [packet::Family::IPV4, packet::Family::IPV6] {
-        all.extend(tables.collect_paths(table::TableQuery::Global, fam, Vec::new(), false));
+        global.extend(tables.collect_paths(table::TableQuery::Global, fam, Vec::new(), false));
     }
     let mut obs = Vec::new();
-    for (_, nlri) in &nets {
-        match all.iter().find(|d| &d.net == nlri) {
-            None => obs.push(Val::L(vec![])),
-            Some(d) => {
-                let p = &d.paths[0];
-                let v = Val::opt(p.validation.as_ref().map(|r| {
-                    let st = match r.state {
-                        table::RpkiValidationState::NotFound => 0u8,
-                        table::RpkiValidationState::Valid => 1,
-                        table::RpkiValidationState::Invalid => 2,
-                    };
-                    let rs = match r.reason {
-                        table::RpkiValidationReason::None => 0u8,
-                        table::RpkiValidationReason::Asn => 1,
-                        table::RpkiValidationReason::Length => 2,
-                    };
-                    Val::L(vec![
-                        Val::n(st),
-                        Val::n(rs),
-                        Val::us(r.matched.len()),
-                        Val::us(r.unmatched_asn.len()),
-                        Val::us(r.unmatched_length.len()),
-                    ])
-                }));
-                obs.push(Val::L(vec![v]));
-            }
-        }
+    for (family, nlri, src, pid, is_local) in &paths {
+        let g = find(&global, nlri, src, *pid);
+        let a = if *is_local {
+            Val::L(vec![])
+        } else {
+            let adj = tables.collect_paths(table::TableQuery::AdjIn(src.remote_addr), *family, Vec::new(), false);
+            find(&adj, nlri, src, *pid)
+        };
+        obs.push(Val::L(vec![g, a]));
     }
     Val::L(obs)
 }
